@@ -260,7 +260,13 @@ class AbstractOfflineSpecification(AbstractSpecification):
         self.explainer = explainer
 
     def explain(self):
-        self.explainer.explain(self.ast)
+        # the explanation functions index the samples: bounded operators need their
+        # bounds in samples, as the interpreter computes them from unit and sampling period
+        to_samples = getattr(self.offline_interpreter, 'time_unit_transformer', None)
+        if to_samples is not None:
+            self.explainer.explain(self.ast, to_samples)
+        else:
+            self.explainer.explain(self.ast)
 
     # forwarding to interpreter
     def evaluate(self, *args, **kwargs):
